@@ -245,3 +245,75 @@ CLAIMED = {
 
 _NOT_BUILT = "not built yet in this round (planned per DESIGN.md section 7); no claim is made"
 NOT_APPLICABLE = {f"C{i:02d}": _NOT_BUILT for i in range(1, 21) if f"C{i:02d}" not in CLAIMED}
+
+
+# ---- additions of the second half of the build round (inductive contracts, cross-checks) ------------------------------------
+_INDUCTIVE = ("inductive loop invariants (for/while, nested, with variants and ghost state) discharged as verification "
+              "conditions by z3")
+_ADD = {
+    "C09": {
+        "engines": ["A", "B"],
+        "technique": "contract-based deductive verification: Hoare triples over regular languages on the real utils.py functions "
+                     "(exact automata inclusion over a Unicode class alphabet); scope uniqueness by ast->z3 symbolic execution "
+                     "with " + _INDUCTIVE,
+        "text+": " Scope uniqueness for inputs of any size: Endpoint._check_parameters_for_conflicts (fixpoint discipline, "
+                 "pairwise distinct non-reserved names in a pass that renamed nothing, strictly growing recursion argument), "
+                 "EnumProperty.values_from_list (one member per listed value, positions never share a member name), class "
+                 "registration in Model/Enum/LiteralEnumProperty.build (never overwrites a table entry).",
+        "note": "Trusted: pyvc's encoding of the str/re primitives and of the Python subset (both cross-checked against CPython), "
+                "the running interpreter's Unicode tables, field_prefix in SAFE_PREFIX. Not proved: attribute uniqueness in "
+                "_add_if_no_conflict (a closure; bounded stand-in only) and one stated residual of the parameter contract (a "
+                "recorded parameter renamed by the reserved-name branch in the last pass).",
+    },
+    "C01": {"text+": " Parameter name conflicts: inductive contract of _check_parameters_for_conflicts (any number of "
+                     "parameters) in addition to the bounded stand-in."},
+    "C03": {"text+": " Parser side, for inputs of any size: Endpoint.add_parameters (every declared parameter with a schema is "
+                     "in the list of its location under its wire name; duplicates rejected; argument not modified), "
+                     "Endpoint.from_data (method, path, tags, operation id, security flag; body accounting), body_from_data, "
+                     "get_content_type.",
+            "note+": " sort_parameters (string replace / findall relations) is outside both engines: covered only by schematic "
+                     "operations whose path parameter names need pythonisation and recur in fixed segments."},
+    "C04": {"text+": " Parser side: response_from_data for a response with any number of media types (first usable media type "
+                     "wins, its schema is the one parsed, no usable media type is a diagnostic, a $ref is replaced by the "
+                     "component itself), _source_by_content_type, _add_responses."},
+    "C06": {"technique+": "; " + _INDUCTIVE,
+            "text+": " Termination and accounting of the three retry fixpoints (_create_schemas, build_parameters, "
+                     "_process_models: variant |to_process|, conservation of components), _resolve_reference (no reference "
+                     "followed twice, never returns a Reference), _process_model_errors, for inputs of any size."},
+    "C07": {"technique+": "; " + _INDUCTIVE,
+            "text+": " For inputs of any size: component accounting of the retry fixpoints (one new diagnostic per component "
+                     "that was not registered), update_schemas_with_data (registered or named in the diagnostic), class "
+                     "registration never overwrites, Endpoint.from_data body accounting, Endpoint.add_parameters, "
+                     "response_from_data.",
+            "note+": " The fixpoint accounting is count-level (not per-item identity); a restructured loop makes the inductive "
+                     "contract undecided and the bounded stand-in schema_accounting gives the witness."},
+    "C08": {"text+": " Retry fixpoints and _resolve_reference by inductive contracts (any size)."},
+    "C11": {"text+": " Model/List/Const overrides of get_type_string obey the same Unset discipline."},
+    "C12": {"text+": " Class registration never overwrites a table entry (so the surviving class does not depend on order); "
+                     "hash-seed stand-in extended by a determinism document (unions of several const/enum/model members)."},
+    "C13": {"text+": " The ten scalar build classmethods apply convert_value once to the declared default and return its "
+                     "diagnostic or a property carrying the converted value. Engine B is cross-checked against CPython on the "
+                     "JSON pool on every run (native interpretation of every assumed library function)."},
+    "C14": {"technique+": "; member table by " + _INDUCTIVE,
+            "text+": " Parser side: EnumProperty.values_from_list for value lists of any length (one member per listed value, "
+                     "holding the escaped value; positions never share a member name); const members of unions are tried in turn "
+                     "(repaired defect)."},
+    "C20": {"text+": " parameter_from_data builds a field-by-field copy of this component whatever the table holds; "
+                     "update_parameters_with_data / update_schemas_with_data register exactly the built object under the "
+                     "reference path; add_parameters resolves before de-duplication (inductive); _resolve_reference "
+                     "(inductive); response_from_data replaces a $ref by the component itself."},
+    "C02": {"text+": " Engine B is cross-checked against CPython on concrete wire objects of every schematic model on every "
+                     "run; const members inside unions are part of the schematic family (repaired defect)."},
+}
+for _p, _a in _ADD.items():
+    _c = CLAIMED[_p]
+    for _k, _v in _a.items():
+        if _k.endswith("+"):
+            _c[_k[:-1]] = _c.get(_k[:-1], "") + _v
+        else:
+            _c[_k] = _v
+for _p, _c in CLAIMED.items():
+    if "B" in _c.get("engines", []) or "F" in _c.get("engines", []):
+        _c["note"] = _c.get("note", "") + (" z3 `unsat` answers are re-decided by cvc5 as a second back end (all of them in the "
+                                            "thorough tier up to a cap, a sample in the quick tier); a disagreement is an engine "
+                                            "error (exit 3).")
